@@ -4,6 +4,7 @@ import (
 	"encoding/json"
 	"fmt"
 	"os"
+	"reflect"
 	"sort"
 	"strings"
 	"time"
@@ -39,7 +40,7 @@ const c01Extra = 3
 
 type c01Job struct {
 	Scn     string
-	Variant string      // "outsider" | "witness-on" | "wipe-jobs" | "restart" | "index-lag" | "mempool" | "seam" | "probe"
+	Variant string      // "outsider" | "witness-on" | "wipe-jobs" | "jobs-done" | "jobs-failed" | "restart" | "index-lag" | "mempool" | "seam" | "probe"
 	K       int         // wipe-jobs: after this block index
 	Plan    map[int]int // seam: occurrence -> alternative
 }
@@ -63,6 +64,32 @@ func wipeJobs(r *harness.Replica) int {
 		js.WithChain(ct).Iterate(func(j jobs.Job) { all = append(all, j) })
 		for _, j := range all {
 			if js.WithChain(ct).DeleteJob(j) == nil {
+				n++
+			}
+		}
+	}
+	return n
+}
+
+// finishJobs marks every job of the node's job store as completed (or failed): what the node's own job bus does
+// between two blocks, at its own pace, on a witness - and on no other node.
+func finishJobs(r *harness.Replica, st jobs.Status) int {
+	js := r.App.VerifJobStore()
+	n := 0
+	for _, ct := range []chain.Type{chain.ETHEREUM, chain.BITCOIN} {
+		var all []jobs.Job
+		js.WithChain(ct).Iterate(func(j jobs.Job) { all = append(all, j) })
+		for _, j := range all {
+			v := reflect.ValueOf(j)
+			if v.Kind() != reflect.Ptr || v.Elem().Kind() != reflect.Struct {
+				continue
+			}
+			f := v.Elem().FieldByName("Status")
+			if !f.IsValid() || !f.CanSet() || f.Kind() != reflect.Int {
+				continue
+			}
+			f.SetInt(int64(st))
+			if js.WithChain(ct).SaveJob(j) == nil {
 				n++
 			}
 		}
@@ -97,7 +124,7 @@ func c01Exec(j c01Job) c01Res {
 		fid = harness.OutsiderIdentity()
 	case "restart":
 		fid = harness.NaturalIdentityOf(h.W.Vals[0])
-	case "witness-on", "wipe-jobs":
+	case "witness-on", "wipe-jobs", "jobs-done", "jobs-failed":
 		fid = harness.IdentityOf(h.W.Vals[0])
 		fid.IsWitness = true
 	}
@@ -163,6 +190,12 @@ func c01Exec(j c01Job) c01Res {
 		}
 		if j.Variant == "wipe-jobs" && i == j.K {
 			out.Jobs = wipeJobs(fol)
+		}
+		if j.Variant == "jobs-done" && i == j.K {
+			out.Jobs = finishJobs(fol, jobs.Completed)
+		}
+		if j.Variant == "jobs-failed" && i == j.K {
+			out.Jobs = finishJobs(fol, jobs.Failed)
 		}
 		if j.Variant == "restart" && i == j.K {
 			// the second replica is a node that was stopped and started again after this block
@@ -341,6 +374,11 @@ func c01(args []string) int {
 		for k := 0; k < len(h.Blocks)-c01Extra; k++ {
 			list = append(list, c01Job{Scn: id, Variant: "wipe-jobs", K: k}, c01Job{Scn: id, Variant: "restart", K: k})
 			cfgRuns += 2
+			if kindModule(catalogue.Get(id).Kind) == "cross-chain" {
+				// a witness whose job bus has finished (or given up on) every job it had after block k
+				list = append(list, c01Job{Scn: id, Variant: "jobs-done", K: k}, c01Job{Scn: id, Variant: "jobs-failed", K: k})
+				cfgRuns += 2
+			}
 		}
 		ps := points[id]
 		for _, p := range ps {
